@@ -51,7 +51,9 @@ void harness(void)
     if (i < sa) V_ASSERT(a[i] == av[i], "frame.A_unchanged");
     if (i < sb) V_ASSERT(b[i] == bv[i], "frame.B_unchanged");
   }
-  if (t < 64 * sb && ((bv[t / 64] >> (t % 64)) & 1) && r < 64 * sa)
+  /* the caller uses the offset without growing the table only if the whole row fits:
+   * r + len_b <= len_a (otherwise it enlarges A first and the row lands in fresh slots) */
+  if (t < len_b && ((bv[t / 64] >> (t % 64)) & 1) && (uint64_t) r + len_b <= len_a)
   {
     uint64_t pos = (uint64_t) r + t;
     if (pos / 64 < sa)
